@@ -22,7 +22,8 @@ Values (`Val`) are Go value trees exactly as reflection sees them (nil slices / 
 Modelling decisions (also in the MANIFEST):
   * a failed read ends the decode with `.err` at once.  The Go reader instead turns `bad`, empties `Src` and the generated
     code keeps calling reads that are no-ops until the next `b.Ok()` / `b.Complete()`; `bad` is sticky, so the outcome class
-    is the same.  The cost of that continuation (the tag-count loop) is modelled separately in `Model/C16.lean`.
+    is the same.  The tag-count loop, the one place where that continuation used to be expensive, is modelled as the code runs it
+    in `Model/C16.lean`.
   * every Go slice expression / index / `make` the reader and the generated code perform is routed through `goSplit` /
     `goMake`, which return `.panic` when Go would panic; that they never do is a theorem (Props/C16).
 -/
@@ -110,7 +111,7 @@ def Vals.ofList : List Val → Vals
 
 inductive Res (α : Type) where
   | ok (a : α) (rest : Bytes)
-  | err (spin : Nat)     -- `spin`: iterations the Go code still runs on the invalidated reader (tag-count loop), see C16
+  | err (spin : Nat)     -- `spin`: loop iterations the Go code would still run on the invalidated reader; 0 everywhere since /repo 994d56c
   | panic (msg : String)
 
 def Res.andThen {α β : Type} (r : Res α) (f : α → Bytes → Res β) : Res β :=
@@ -399,11 +400,12 @@ def readRawTags : Nat → Bytes → Res (List (Nat × Bytes))
           (readUvarint r1).andThen fun size r2 =>
           (span size r2).map fun b => (key, b) with
     | .ok e r3 => (readRawTags n r3).map fun l => e :: l
-    | .err _ => .err (n + 1)       -- the loop runs its remaining `n+1` iterations on the invalidated reader
+    | .err _ => .err 0             -- the loop stops at its next `b.Ok()` test (/repo 994d56c)
     | .panic m => .panic m
 
 /-- a struct with defined tags reads its tag section with a generated `switch`: on an invalidated reader the key is 0, tag 0 is
-known, its decode fails and the function returns; a struct without defined tags calls `internalReadTags`, which keeps looping. -/
+known, its decode fails and the function returns; a struct without defined tags calls `internalReadTags`, whose loop tests
+`b.Ok()` before every iteration. Either way no iteration runs on an invalidated reader. -/
 def readTagsOf (known : List Nat) (num : Nat) (src : Bytes) : Res (List (Nat × Bytes)) :=
   match readRawTags num src with
   | .err s => .err (if known.isEmpty then s else 0)
